@@ -24,17 +24,17 @@ Theorem C03_refuted :
 Proof. exact (conj P1_refuted (conj P2_refuted (conj P3_refuted P4_refuted))). Qed.
 Print Assumptions C03_refuted.
 
-(* ---- unbounded part: nests of  if ... then ... end if ---- *)
+(* ---- unbounded part: nests of  if ... then ... [else ...] end if ---- *)
 From DRX Require Import Py.PyBytes Model.LingoGen Model.LingoOps Model.LingoLoop Spec.SpecLingo Spec.SpecNest
   Proofs.LingoExecFacts Proofs.LingoStmtFacts Proofs.LingoNestFacts Proofs.LingoNestExec.
 Open Scope Z_scope.
 
 (* For every program built from straight-line statements (assignments to every kind of variable, statement
-   calls) and  if <any expression> then <non-empty body> end if,  nested to ANY depth with ANY number of
-   statements per body (the only bound is the two-byte jump offset of the format): running the handler's
+   calls),  if <any expression> then <non-empty body> end if  and  if ... then <body> else <body> end if,  nested to ANY
+   depth with ANY number of statements per body (the only bound is the two-byte jump offset of the format): running the handler's
    compiled code through the stack machine and the control-flow passes (detect = condition_detect, then
    loop_detect, with the fuel parse_opcodes gives them) yields exactly the source nesting - every statement once,
-   in order, inside the same if, every if with its own condition, no raw jump left - followed by the
+   in order, inside the same branch of the same if, every if with its own condition, no raw jump left - followed by the
    handler's exit statement.  Proof: induction over the program for the execution (LingoNestExec.exec_p), induction
    over the nesting depth and the statement list for the passes (LingoNestFacts.detect_nest). *)
 Theorem C03_if_nests_rebuilt_unbounded :
@@ -61,8 +61,9 @@ Definition put_s (n : Z) : stmt := SCallS 9 [EInt n].
 Definition c_lt (k : Z) : expr := EBin Lt (ELoc 0) (EInt k).
 Definition nest3 : prog :=
   PStmt (put_s 1)
-   (PIf (c_lt 2) (PStmt (put_s 3) (PIf (c_lt 4) (PIf (c_lt 5) (PStmt (put_s 6) (PStmt (SSet (TLoc 1) (EInt 7)) PNil)) (PStmt (put_s 8) PNil)) (PStmt (put_s 9) PNil)))
-   (PStmt (put_s 10) PNil)).
+   (PIf (c_lt 2) (PStmt (put_s 3) (PIfE (c_lt 4) (PIf (c_lt 5) (PStmt (put_s 6) (PStmt (SSet (TLoc 1) (EInt 7)) PNil)) (PStmt (put_s 8) PNil))
+                                                 (PIfE (c_lt 11) (PStmt (put_s 12) PNil) (PStmt (put_s 13) PNil) PNil) (PStmt (put_s 9) PNil)))
+   (PIfE (c_lt 14) (PStmt (put_s 15) PNil) (PIf (c_lt 16) (PStmt (put_s 17) PNil) PNil) (PStmt (put_s 10) PNil))).
 Example C03_nest3_wf : wf_p flow_env nest3.
 Proof. cbn. repeat split; try lia; try discriminate. Qed.
 Example C03_nest3_run :
